@@ -15,8 +15,11 @@ def main():
     d = os.path.join(ROOT, "seeded")
     if args and args[0] == "--dir":
         d = args[1]; args = args[2:]
+    repo = "/repo"
+    if args and args[0] == "--repo":
+        repo = args[1]; args = args[2:]
     ids = args or sorted(os.listdir(d))
-    assert sh("git -C /repo status --porcelain").stdout.strip() == "", "/repo not clean"
+    assert sh("git -C %s status --porcelain" % repo).stdout.strip() == "", repo + " not clean"
     res = {}
     for sid in ids:
         p = os.path.join(d, sid)
@@ -24,20 +27,20 @@ def main():
         pid = meta["property"]
         props = meta.get("also_check", [])
         try:
-            r = sh("git -C /repo apply %s" % os.path.join(p, "patch.diff"))
+            r = sh("git -C %s apply %s" % (repo, os.path.join(p, "patch.diff")))
             if r.returncode != 0:
                 res[sid] = "PATCH-FAILED " + r.stdout[-200:]; continue
             out = {}
             for q in [pid] + props:
                 t0 = time.time()
-                c = sh("cd %s && ./check %s --tier quick" % (ROOT, q))
+                c = sh("cd %s && VERIF_REPO=%s ./check %s --tier quick" % (ROOT, repo, q))
                 line = [l for l in c.stdout.splitlines() if l.startswith(("VIOLATION", "OK", "HARNESS", "KNOWN"))]
                 out[q] = (c.returncode, line[-1] if line else c.stdout[-300:], round(time.time() - t0, 1))
             res[sid] = out
         finally:
-            sh("git -C /repo checkout -- .")
+            sh("git -C %s checkout -- ." % repo)
         print(sid, json.dumps(res[sid]), flush=True)
-    assert sh("git -C /repo status --porcelain").stdout.strip() == ""
+    assert sh("git -C %s status --porcelain" % repo).stdout.strip() == ""
     return 0
 
 
